@@ -620,3 +620,67 @@ Lemma old_expire_after_reload :
   events_of [97%N] (fold_left rstep_old ops []) = [evA; evB] /\
   events_of [97%N] (rrun ops []) = [evB].
 Proof. vm_compute. repeat split; intros; discriminate. Qed.
+
+(* ------------------------------------------------------------------ the event loop *)
+
+Lemma expire_same_length m l : length (expire m l) = length l -> expire m l = l.
+Proof.
+  intro H. destruct (expire_split m l) as (d & E & _).
+  assert (L : length l = (length (expire m l) + length d)%nat) by (rewrite E at 1; apply app_length).
+  destruct d as [|x d]; [rewrite app_nil_r in E; symmetry; exact E|]. simpl in L. lia.
+Qed.
+
+Lemma expire_unchanged now s : expire_changed now s = false -> map_lists (expire (min_ctime now)) s = s.
+Proof.
+  unfold expire_changed, map_lists. induction s as [|[k l] r IH]; simpl; intro H; [reflexivity|].
+  apply orb_false_iff in H. destruct H as [H1 H2]. apply negb_false_iff, Nat.eqb_eq in H1.
+  rewrite (expire_same_length _ _ H1), (IH H2). reflexivity.
+Qed.
+
+(* the cache, when present, is the current history; when no save is pending the file holds the
+   current history (or nothing has changed since the start) *)
+Definition linv (m0 : rstate) (st : lstate) : Prop :=
+  (l_cache st = None \/ l_cache st = Some (l_map st)) /\
+  (l_armed st = false -> l_file st = Some (l_map st) \/ l_map st = m0).
+
+Lemma l_get_current m0 st : linv m0 st -> snd (l_get st) = l_map st /\ linv m0 (fst (l_get st)) /\
+  l_map (fst (l_get st)) = l_map st /\ l_file (fst (l_get st)) = l_file st /\
+  l_armed (fst (l_get st)) = l_armed st /\ l_cache (fst (l_get st)) = Some (l_map st).
+Proof.
+  intros [[C|C] F]; unfold l_get; rewrite C; simpl.
+  - split; [reflexivity|]. split; [|auto]. unfold linv. simpl. auto.
+  - split; [reflexivity|]. split; [|auto]. unfold linv. rewrite C. auto.
+Qed.
+
+Lemma linv_step m0 st o : linv m0 st -> linv m0 (lstep st o).
+Proof.
+  intro I. destruct o as [r|now| |]; simpl.
+  - destruct (rop_event r); [|exact I]. split; simpl; [left; reflexivity|discriminate].
+  - destruct (expire_changed now (l_map st)); [|exact I]. split; simpl; [left; reflexivity|discriminate].
+  - apply (l_get_current m0 st I).
+  - destruct (l_armed st) eqn:A; [|exact I].
+    destruct (l_get_current m0 st I) as (S & I' & M & Fi & Ar & Ca).
+    destruct (l_get st) as [st' snap]. simpl in *. subst snap. split; simpl.
+    + right. rewrite Ca, M. reflexivity.
+    + intros _. left. rewrite M. reflexivity.
+Qed.
+
+Lemma linv_run m0 ops : forall st, linv m0 st -> linv m0 (lrun ops st).
+Proof. induction ops as [|o r IH]; intros st I; [exact I|]. simpl. apply IH, linv_step, I. Qed.
+
+Lemma linv_start now file : linv (l_map (l_start now file)) (l_start now file).
+Proof. unfold linv, l_start. simpl. split; [right; reflexivity|intros _; right; reflexivity]. Qed.
+
+(* every history request is answered with the history as it is now *)
+Lemma loop_request_current now file ops :
+  let st := lrun ops (l_start now file) in snd (l_get st) = l_map st.
+Proof.
+  intros st. apply (l_get_current (l_map (l_start now file))). apply linv_run, linv_start.
+Qed.
+
+(* whenever no save is pending, a restart at time now' finds what a restart of the in-memory
+   history would find: nothing is lost between the last save and now *)
+Lemma loop_saved now file ops :
+  let st := lrun ops (l_start now file) in
+  l_armed st = false -> l_file st = Some (l_map st) \/ l_map st = l_map (l_start now file).
+Proof. intros st. apply (linv_run _ ops _ (linv_start now file)). Qed.
